@@ -29,4 +29,10 @@ CHECKS = {
  'C50': dict(engine='PYSYM', technique='CrossHair symbolic execution of the real Plex pipeline (Lexicon->NFA->DFA->Scanner.run_machine_inlined) on a symbolic input string per enumerated lexicon, vs a set-of-end-positions reference matcher',
              text='For each of the listed lexicons (fixed regression set + VERIF_SEED-drawn), for EVERY input text up to the stated length over {a,b,c,newline}, the token sequence (rule index and text, longest match, earliest rule on ties, error iff nothing matches) equals the reference matcher.',
              note=_TB + ' Lexicons are enumerated, not symbolic.'),
+ 'C47': dict(engine='PYSYM', technique='CrossHair symbolic execution of strip_string_literals on symbolic token sequences / symbolic characters; oracle = label substitution + CPython tokenizer spans; concrete replay',
+             text='For every text in the stated families (all concatenations of <= 3 tokens from a 16-token alphabet of quotes, escapes, braces, f prefix, comment and newline; f-string and triple-quote skeletons with 4 symbolic middle tokens; all texts of <= 3 characters over 9 characters) the stripper is lossless (labels substitute back) and complete (exactly the string/comment body positions CPython\'s tokenizer reports are inside labels).',
+             note=_TB + ' Completeness is only asserted for texts CPython compiles.'),
+ 'C11': dict(engine='PYSYM', technique='CrossHair symbolic execution of escape_byte_string / split_string_literal / escape_char / as_c_string_literal over symbolic byte-class selectors, against a reference ISO C literal lexer (trigraphs, escapes, concatenation)',
+             text='For every byte string in the bounded families (all bytes len <= 1; len <= 3-4 over 19 byte classes; split_string_literal with limits 6..9 over all sequences of <= 4 escape tokens) the emitted C literal (plain, split, and MSVC char-array forms) is read back by the reference C lexer as exactly the original bytes.',
+             note=_TB),
 }
